@@ -249,3 +249,36 @@ contract(
               ("bases_outside_bin", "if start <= p < end", "if start <= p <= end"),
               ("unfiltered_bases", "if filter_read(read):", "if True:")],
 )
+
+
+# ----------------------------------------------------------------------------- deductive: one chunk of bins
+
+_REGS4 = ObjT("GenomicArray", data=TabT(index="any", chromosome=CHROM, start=Int, end=Int, gene=GENE), meta=DictT())
+_PASSQ = _PASS
+_BASESQ = ("sumof(Vec(len(bamfile.reads), lambda k: ite(PASS, countif(bamfile.reads[k].positions, lambda p: regions.data.start[j] <= p and p < regions.data.end[j]), 0)))"
+           .replace("PASS", _PASS))
+contract(
+    "cnvlib/coverage.py::_rdc_chunk",
+    params=dict(bamfile=_BAM, regions=_REGS4, min_mapq=Int, fasta=Lit(None)),
+    yields=TupT(Int, TupT(CHROM, Int, Int, GENE, Real, Real)),
+    requires=[],
+    loops={0: dict(inv=[
+        ("one_row_per_bin", "len(out_) == i_"),
+        ("rows_echo_their_bins", "forall(0, i_, lambda j: out_[j][1][0] == regions.data.chromosome[j] and out_[j][1][1] == regions.data.start[j] and "
+                                 "out_[j][1][2] == regions.data.end[j] and out_[j][1][3] == regions.data.gene[j])"),
+        ("depths", "forall(0, i_, lambda j: out_[j][1][5] == ite(regions.data.end[j] > regions.data.start[j], BASES / (regions.data.end[j] - regions.data.start[j]), 0))".replace("BASES", _BASESQ)),
+    ])},
+    ensures=[
+        ("one_row_per_bin", "len(result) == len(regions.data)"),
+        ("rows_echo_their_bins", "forall(0, len(result), lambda j: result[j][1][0] == regions.data.chromosome[j] and result[j][1][1] == regions.data.start[j] and "
+                                 "result[j][1][2] == regions.data.end[j] and result[j][1][3] == regions.data.gene[j])"),
+        ("depths", "forall(0, len(result), lambda j: result[j][1][5] == ite(regions.data.end[j] > regions.data.start[j], BASES / (regions.data.end[j] - regions.data.start[j]), 0))".replace("BASES", _BASESQ)),
+    ],
+    props=("C09",), domain="skip",
+    canaries=[("coordinates_shifted", "yield region_depth_count(bamfile, chrom, start, end, gene, min_mapq)",
+               "yield region_depth_count(bamfile, chrom, start + 1, end, gene, min_mapq)"),
+              ("quality_cutoff_dropped", "yield region_depth_count(bamfile, chrom, start, end, gene, min_mapq)",
+               "yield region_depth_count(bamfile, chrom, start, end, gene, 0)")],
+    notes="one chunk of the regions file (what each worker process runs): one row per bin, in order, with the bin's own "
+          "coordinates and name and the depth of region_depth_count's contract; GenomicArray.coords is executed in place",
+)
